@@ -239,15 +239,27 @@ func c15Matching(rows []c15Row, atoms []c15Atom) []c15Row {
 	return out
 }
 
-// "later positive values override earlier ones and negative values cancel them" (zero never generated here)
+// "later positive values override earlier ones and negative values cancel them"; a zero leaves an earlier value
+// alone, and a chain whose Limit calls are all Limit(0) reads LIMIT 0 (what Find sends: C15_limit_merge_limit).
+// Zero limits are only generated for FindInBatches steps once the tree carries the repair of F7c.
 func c15Eff(lims []limCall) (lim, off int) {
 	lim, off = -1, 0
+	sawLimit, nonZero := false, false
+	defer func() {
+		if sawLimit && !nonZero {
+			lim = 0
+		}
+	}()
 	for _, c := range lims {
+		if c.Kind == "limit" {
+			sawLimit = true
+		}
 		if c.N == 0 {
 			continue
 		}
 		v := c.N
 		if c.Kind == "limit" {
+			nonZero = true
 			if v < 0 {
 				v = -1
 			}
@@ -1014,6 +1026,15 @@ func c15GenStep(rng *rand.Rand, scn *c15Scn, ch c15Chain, depth int, n int) c15S
 	st.Fin = c15Fins[rng.Intn(len(c15Fins))]
 	if depth == 0 && rng.Intn(3) == 0 {
 		st.Fin = c15ReuseFrom[rng.Intn(len(c15ReuseFrom))]
+	}
+	if st.Fin == "batches" && c15Facts().ZeroLimitReturn && rng.Intn(5) == 0 {
+		// the pattern of F7c (a Limit(0) call; effective LIMIT 0 when the chain carries no other limit) is ordinary
+		// input once the tree has the early return
+		st.Extra.Lims = []limCall{{"limit", 0}}
+		if rng.Intn(2) == 0 {
+			st.Extra.Lims = append(st.Extra.Lims, limCall{"offset", rng.Intn(3)})
+		}
+		full = ch.plus(st.Extra)
 	}
 	if st.Fin == "batches" {
 		if !c15Batchable(full) {
